@@ -53,6 +53,10 @@ CALS = [
     lambda r: ['op', 'or', ['F', '4', None, (BASE_DAY + r.randrange(2, 14)) * DAY_US], ['WL', None, None, [0, 1, 2, 3, 4, 5, 6], '8']],
     lambda r: ['op', 'sub', ['WL', None, None, [0, 1, 2, 3, 4, 5, 6], '8'], ['F', '4', None, (BASE_DAY + r.randrange(2, 14)) * DAY_US]],
     lambda r: ['WL', None, (BASE_DAY + r.randrange(2, 14) + (40 if r.random() < 0.5 else 0)) * DAY_US, [0, 1, 2, 3, 4, 5, 6], '8'],
+    # days that offer less than one unit next to days that offer several
+    lambda r: ['WD', None, None, [[0, '1/2'], [1, '8'], [2, '1/4'], [3, '4'], [4, '3/4']]],
+    lambda r: ['op', 'or', ['D', [[(BASE_DAY + d) * DAY_US, r.choice(['1/2', '1/4'])] for d in range(0, 40, r.randrange(2, 4))]],
+               ['WL', None, None, [0, 1, 2, 3, 4], '8']],
 ]
 DEAD = [lambda r: ['D', []], lambda r: ['F', '0', None, None], lambda r: ['WL', None, None, [], '8'],
         lambda r: ['WL', None, (BASE_DAY - 30) * DAY_US, [0, 1, 2, 3, 4], '8']]
@@ -125,6 +129,12 @@ def gen_case(rng, tier, direction=None, feats=None):
                 t['end'] = now - rng.randrange(4, 9) * DAY_US - rng.choice([0, 5 * H])
                 if i not in has_child and rng.random() < 0.7:
                     t['start'] = t['end'] - rng.randrange(0, 6) * DAY_US
+    if d == 'bwd' and feats.get('bwd_fixed') and rng.random() < 0.3:
+        # backward with user-fixed ends (C07 / C03 / C14 only: C09 and C04's backward theorem are stated without fixed dates): at a time of
+        # day, on days near the due date
+        for i, t in enumerate(tasks):
+            if i not in has_child and not t['ms'] and rng.random() < 0.25:
+                t['end'] = bound - rng.randrange(0, 12) * DAY_US - rng.choice([0, 12 * H, 3 * H, ODD])
     if d == 'fwd' and not feats.get('no_fixed') and rng.random() < 0.05:
         # a task declared finished at a date that is still to come: the forward scheduler must refuse (C14)
         t = rng.choice(tasks)
@@ -178,7 +188,7 @@ def gen_case(rng, tier, direction=None, feats=None):
         dead = rng.randrange(len(DEAD))
         resources = [r for r in resources if r[0] != 'b'] + [['b', DEAD[dead](rng)]]
     case = {'dir': d, 'tasks': tasks, 'links': links, 'resources': resources, 'bound': bound, 'clock': clock,
-            'balance': rng.random() < (0.9 if contention else 0.7), 'defaultEst': rng.choice(['0', '0', '8', '3']), 'floats': rng.random() < 0.5,
+            'balance': rng.random() < (0.9 if contention else 0.7), 'defaultEst': rng.choice(['0', '0', '8', '3', '5/2', '1/2']), 'floats': rng.random() < 0.5,
             'dead': dead}
     if rng.random() < 0.3:
         case['ctorLead'] = rng.randrange(1, 9) * DAY_US + rng.choice([0, 5 * H])
@@ -257,8 +267,10 @@ def gen_case(rng, tier, direction=None, feats=None):
 
 
 def random_case(prop, rng, tier):
-    d = {'C02': 'fwd', 'C08': 'fwd', 'C06': 'fwd', 'C09': 'bwd'}.get(prop)
-    return gen_case(rng, tier, d, {'dust': prop == 'C04'})
+    d = {'C02': 'fwd', 'C08': 'fwd', 'C09': 'bwd'}.get(prop)
+    if prop == 'C06':
+        d = 'fwd' if rng.random() < 0.7 else 'bwd'       # (clock independence is a forward-only clause; the others hold for either scheduler)
+    return gen_case(rng, tier, d, {'dust': prop == 'C04', 'bwd_fixed': prop in ('C07', 'C03', 'C14')})
 
 
 # ------------------------------------------------------------------------------------ building the real objects
@@ -611,6 +623,8 @@ def dead_expected(case):
                 continue
             if case['dir'] == 'fwd' and t['start'] is not None and est - sp <= 0:
                 continue
+            if case['dir'] == 'bwd' and t['end'] is not None and est - sp <= 0:
+                continue          # a user-fixed end is taken as it is (no search), and there is no work to place before it
             return True if (est - sp > 0 or t['start'] is None or case['dir'] == 'bwd') else False
     return False
 
@@ -765,7 +779,10 @@ def judge(prop, case, rec, out):
                 mon['clockIndep'] = all(rec['clock_indep'])
     if prop == 'C08' and 'removal_same' in rec:
         mon['c08Removal'] = rec['removal_same']
-    in_domain = all(out['hyp'][h] for h in DOMAIN_OF.get(prop, [])) and not ((dust or case.get('dust')) and prop != 'C04')
+    dom = DOMAIN_OF.get(prop, [])
+    if prop == 'C07' and case['dir'] == 'bwd':
+        dom = []          # C07_backward carries no hypothesis on user-fixed dates (the backward pass derives the start from the end)
+    in_domain = all(out['hyp'][h] for h in dom) and not ((dust or case.get('dust')) and prop != 'C04')
     if not in_domain:
         mon = {k: True for k in mon}
     for cl, hs in CLAUSE_DOMAIN.items():
@@ -819,7 +836,9 @@ def case_variants(case):
         nr = [[h, a - (a > k), b - (b > k)] for h, a, b in case.get('rejected', []) if a != k and b != k]
         yield dict(case, tasks=nt, links=nl, rejected=nr)
     for i in range(len(case['resources'])):
-        yield dict(case, resources=case['resources'][:i] + case['resources'][i + 1:])
+        gone = case['resources'][i][0]
+        yield dict(case, resources=case['resources'][:i] + case['resources'][i + 1:], dead=None if gone == 'b' else case.get('dead'),
+                   calEarly=[c for c in case.get('calEarly', []) if c[0] != gone])
     for i, t in enumerate(tasks):
         for fld in ('spent', 'min_start', 'start', 'end', 'est'):
             if t[fld] is not None:
